@@ -463,6 +463,19 @@ def judge(col, case, scn, ref, run, devs):
         else:
             same = (run["tree"] == ref["tree"]
                     and out == ref["outcome"])
+            if not same and out == ref["outcome"]:
+                # the operation did everything the fault-free run does -
+                # every file of the fault-free tree is there with the same
+                # bytes - and only left something extra behind (e.g. a
+                # staging file whose removal failed): it has succeeded, so
+                # returning normally is not "as if it had succeeded"
+                # and a fresh reader sees the new version of everything
+                rt = dict(run["tree"])
+                same = (all(rt.get(pth) == data
+                            for pth, data in ref["tree"])
+                        and all(matches(run["obs"].get(nm, ("exc", "?")),
+                                        vs[-1])
+                                for nm, vs in run["model"].items()))
             # an injected ENOENT on a probe (stat / open for reading) is a
             # truthful "absent" answer of the environment, not an I/O
             # failure: whatever the operation then does is judged by the
